@@ -284,6 +284,20 @@ class Check:
             json.dump(inp, fh)
         rc, so, se = self.run_bin(binary, [mode, ip, op] + (extra or []), timeout=timeout, env=env)
         if rc != 0 or not os.path.exists(op):
+            crash = self._library_panic(se)
+            if crash:
+                # the code under test crashed the process from one of its own goroutines (the harness cannot recover
+                # that): run the same input once more; a reproducible crash of library code is a verdict
+                rc2, so2, se2 = self.run_bin(binary, [mode, ip, op] + (extra or []), timeout=timeout, env=env)
+                crash2 = self._library_panic(se2) if rc2 != 0 else None
+                if crash2 and crash2[0] == crash[0]:
+                    self.violation('crash:' + crash[0], 'the library panicked while the check was driving it (%s mode %s): %s' % (os.path.basename(binary).split('-')[0], mode, crash[1]),
+                                   {'mode': mode, 'stderr': se[-3000:]})
+                    return {'executed': 0, 'completed': 0, 'nontrivial': 0, 'violations': [], 'drifts': [], 'samples': [], 'counters': {}, 'extra': {}}
+                if rc2 == 0 and os.path.exists(op):
+                    self.notes.append('harness %s crashed once in library code (%s) and passed on re-execution' % (mode, crash[0]))
+                    with open(op) as fh:
+                        return json.load(fh)
             raise Inconclusive('harness %s %s failed rc=%d\nstdout:%s\nstderr:%s' % (os.path.basename(binary), mode, rc, so[-3000:], se[-3000:]))
         with open(op) as fh:
             return json.load(fh)
@@ -315,6 +329,25 @@ class Check:
             res['completed'] = res.get('completed', 0) + r2.get('completed', 0)
             res['nontrivial'] = max(res.get('nontrivial', 0), res.get('nontrivial', 0))
         return res
+
+    @staticmethod
+    def _library_panic(stderr):
+        """(function, first lines) when a Go panic's goroutine was running library code (github.com/centrifugal/centrifuge/...),
+        not harness code, at the moment of the panic; None otherwise."""
+        m = re.search(r'^(panic: .*|fatal error: .*)$', stderr or '', re.M)
+        if not m:
+            return None
+        tail = stderr[m.start():]
+        g = re.search(r'^goroutine \d+ \[running\]:\n((?:.+\n)+)', tail, re.M)
+        if not g:
+            return None
+        for fn in re.findall(r'^([\w./*()\[\]-]+)\(', g.group(1), re.M):
+            if fn.startswith(('runtime.', 'panic(', 'runtime/')) or fn in ('panic',):
+                continue
+            if fn.startswith('github.com/centrifugal/centrifuge'):
+                return (fn.replace('github.com/centrifugal/centrifuge', '').lstrip('/.') or fn, m.group(1)[:200])
+            return None
+        return None
 
     def absorb(self, result, only_prop=True):
         """Takes violations/drifts from a harness result. Violations of other properties are ignored here
